@@ -133,7 +133,8 @@ func (e *Explorer) handleViolations(x *Exec) {
 					found = true
 				}
 			}
-			if !found || y.LogH != x.LogH {
+			// an execution that ended on a state seen before is a prefix of its replay
+			if !found || y.LogH != x.LogH && !x.Pruned {
 				ok = false
 				var sigs []string
 				for _, v2 := range y.Viol {
